@@ -4,6 +4,9 @@
     <seq> OK | <seq> SKIP <reason> | <seq> DIFF <what> … | <seq> BAD <parse error>
 -/
 import SugarModel.Driver.Transcript
+import SugarModel.Spec.RefMap
+import SugarModel.Known
+import SugarModel.Generated.CommandTable
 open Sugar Sugar.Driver
 
 def showVal (v : Val) : String := reprStr v
@@ -60,6 +63,74 @@ def verdict (t : Transition) : String :=
         | some d => s!"DIFF state {d}"
         | none => "OK"
 
+def toObs : Observed → Spec.Obs
+  | .ok bs => match parseReply bs with
+    | some v => .ok v
+    | none => .malformed
+  | .err _ => .err
+  | .panic => .panic
+
+/-- verdict of the key/value reference spec on the *implementation's* transition -/
+def specKvVerdict (t : Transition) : String :=
+  let a := Spec.abs t.ctx.now t.pre t.ctx.db
+  let p := Spec.abs t.ctx.now t.post t.ctx.db
+  match Spec.specKv t.ctx.now a t.cmd with
+  | none => "na"
+  | some v =>
+    match toObs t.obs with
+    | .panic => "rej"
+    | o => if v.unspecified then "uns" else if v.admits o p then "adm" else
+        (if !v.replyOk o then "rej:reply" else "rej:post")
+
+/-- accounted size of a dataset: what a fresh server loaded with it reports (C19's reference) -/
+def memFn (s : State) : Int :=
+  (s.dbs.map fun (_, d) => (d.store.map fun (k, e) => e.getMem + keyMem k).sum).sum
+
+def memVerdict (t : Transition) : String :=
+  if t.post.mem - t.pre.mem == memFn t.post - memFn t.pre then "adm" else "rej"
+
+def dbOrEmpty (s : State) (j : Nat) : Db := canonDb (s.db j)
+
+def allDbIdx (t : Transition) : List Nat := ((t.pre.dbs.map (·.1)) ++ (t.post.dbs.map (·.1))).eraseDups
+
+def isoVerdict (t : Transition) : String :=
+  let n := toLower (t.cmd.headD [])
+  if n == b "flushall" || n == b "swapdb" then "na" else
+  if (allDbIdx t).all fun j => j == t.ctx.db || dbOrEmpty t.pre j == dbOrEmpty t.post j then "adm" else "rej"
+
+def rowOf (name : Bytes) : Option Gen.CmdRow :=
+  Gen.commandTable.find? fun r => r.sub == "" && b r.name == toLower name
+
+/-- read-only per the command table (categories contain read and not write), or a failing invocation -/
+def pureVerdict (t : Transition) : String :=
+  let ro := match rowOf (t.cmd.headD []) with
+    | some r => r.cats.contains "read" && !r.cats.contains "write"
+    | none => false
+  let failing := match t.obs with
+    | .err _ => true
+    | _ => false
+  if !(ro || failing) then "na" else
+  if (allDbIdx t).all fun j => Spec.sameDb (Spec.abs t.ctx.now t.pre j) (Spec.abs t.ctx.now t.post j) then "adm" else "rej"
+
+def hasDeadline (t : Transition) : String :=
+  let ks := Known.keyArgs t.cmd
+  let f (s : State) := ks.any fun k => match s.lookup t.ctx.db k with
+    | some e => e.exp.isSome
+    | none => false
+  if f t.pre || f t.post then "1" else "0"
+
+def shapeOf (t : Transition) : String :=
+  match t.cmd with
+  | _ :: k :: _ =>
+    match t.pre.lookup t.ctx.db k with
+    | none => "absent"
+    | some e =>
+      let tag := match e.val with
+        | .nil => "nil" | .str _ => "str" | .int _ => "int" | .flt _ => "flt"
+        | .list _ => "list" | .hash _ => "hash" | .set _ => "set" | .zset _ => "zset"
+      if e.expired t.ctx.now then "expired-" ++ tag else if e.exp.isSome then "ttl-" ++ tag else tag
+  | _ => "nokey"
+
 partial def loop (h : IO.FS.Stream) (out : IO.FS.Stream) : IO Unit := do
   let line ← h.getLine
   if line.isEmpty then return ()
@@ -72,7 +143,7 @@ partial def loop (h : IO.FS.Stream) (out : IO.FS.Stream) : IO Unit := do
   else
   match parseLine line with
   | .error e => out.putStrLn s!"? BAD {e}"
-  | .ok t => out.putStrLn s!"{t.seq} {verdict t}"
+  | .ok t => out.putStrLn s!"{t.seq} {verdict t} ## kv={specKvVerdict t} cls={(Known.classifyKv t.ctx t.pre t.cmd).getD "-"} mcls={(Known.classifyMem t.ctx t.pre t.cmd).getD "-"} pure={pureVerdict t} mem={memVerdict t} iso={isoVerdict t} dl={hasDeadline t} shape={shapeOf t}"
   loop h out
 
 def main : IO Unit := do
